@@ -116,13 +116,18 @@ func (c *SubscriptionManager) RemoveSubscription(data model.SubscriptionManageme
 		return fmt.Errorf("server feature '%s' in local device '%s' not found", data.ServerAddress, addressString(c.localDevice.Address()))
 	}
 
+	// a device can only remove its own subscriptions
+	if clientAddress.Device != nil && remoteDevice.Address() != nil && *clientAddress.Device != *remoteDevice.Address() {
+		return fmt.Errorf("client feature '%s' is not a feature of remote device '%s'", data.ClientAddress, addressString(remoteDevice.Address()))
+	}
+
 	c.mux.Lock()
 	defer c.mux.Unlock()
 
 	for _, item := range c.subscriptionEntries {
 		itemAddress := item.ClientFeature.Address()
 
-		if !reflect.DeepEqual(itemAddress.Device, clientAddress.Device) ||
+		if item.ClientFeature.Device().Ski() != remoteDevice.Ski() ||
 			!reflect.DeepEqual(itemAddress.Entity, clientAddress.Entity) ||
 			!reflect.DeepEqual(itemAddress.Feature, clientAddress.Feature) ||
 			!reflect.DeepEqual(item.ServerFeature, serverFeature) {
